@@ -171,6 +171,13 @@ def cases(M):
             continue
         yield {"za": za, "zb": zb, "ua": ua, "ub": ub, "ha": r.choice(HOWS[:4]), "hb": r.choice(HOWS), "ti": ia, "pa": str(da),
                "pb": "r"}
+    # the two ends of the representable range (years 1 and 9999), where the UTC instant itself is not representable
+    for j in range(6000 if thorough else 600):
+        zn = r.choice(names)
+        lo = j % 2 == 0
+        wa = (MIN_US + r.randrange(0, 2 * DAY_US)) if lo else (MAX_US - r.randrange(0, 2 * DAY_US))
+        wb = (MIN_US + r.randrange(0, 3 * DAY_US)) if lo else (MAX_US - r.randrange(0, 3 * DAY_US))
+        yield {"k": "edge", "z": zn, "wa": wa, "wb": wb, "same": True, "zb": zn}
     for j in range(40000 if thorough else 4000):
         yield {"k": "plain", "ua": gen.random_instant(r), "ub": gen.random_instant(r) if j % 2 else None, "d": r.randrange(-10**6, 10**6),
                "kind": ("naive", "date", "fixed", "naive_native")[j % 4], "oa": r.randrange(-86399, 86400), "ob": r.randrange(-1439, 1440) * 60}
@@ -201,6 +208,8 @@ def run(M, c):
     P = M.pendulum
     if c.get("k") == "plain":
         return _run_plain(M, c)
+    if c.get("k") == "edge":
+        return _run_edge(M, c)
     a = _mk(M, c["za"], c["ua"], c["ha"])
     b = _mk(M, c["zb"], c["ub"], c["hb"])
     if inst(a) != c["ua"] or inst(b) != c["ub"]:
@@ -280,3 +289,30 @@ def _run_plain(M, c):
         nat = dt.datetime(*fields(b)) - dt.datetime(*fields(a))
         M.check("native_operand", _len_ok(r1, td_us(nat)), "C05/native-operand:naive", "differs from native subtraction",
                 a=_d(a), b=_d(b), got=td_us(r1), native=td_us(nat))
+
+
+def _run_edge(M, c):
+    """endpoints in the first/last days of the representable range, built from wall fields with the raw constructor"""
+    import zoneinfo as _zi
+
+    P = M.pendulum
+    za, zb = c["z"], (c["z"] if c["same"] else c["zb"])
+    try:
+        a = P.DateTime(*us_to_fields(c["wa"]), tzinfo=P.timezone(za))
+        b = P.DateTime(*us_to_fields(c["wb"]), tzinfo=P.timezone(zb))
+        oa, ob = a.utcoffset(), b.utcoffset()
+    except (OverflowError, ValueError):
+        return
+    # exact expected length from walls and offsets (no UTC datetime needed)
+    e = (c["wb"] - td_us(ob)) - (c["wa"] - td_us(oa))
+    M.cls("edge", c["wa"] < 0, c["same"], za)
+    M.current = dict(c)
+    for name, fn in (("b-a", lambda: b - a), ("diff", lambda: a.diff(b, False)), ("interval", lambda: P.interval(a, b))):
+        try:
+            iv = fn()
+        except Exception as ex:  # noqa: BLE001
+            M.check("new.length", False, f"C05/range-edge:raised-{type(ex).__name__}:" + ("same-tzinfo" if c["same"] else "different-zones"),
+                    "subtracting two valid DateTimes near the end of the representable range raised", a=_d(a), b=_d(b), op=name, exc=repr(ex)[:120])
+            continue
+        M.check("new.length", _len_ok(iv, e), "C05/range-edge:length", "interval length wrong near the end of the representable range", a=_d(a), b=_d(b),
+                got=td_us(iv), expected=e)
